@@ -781,6 +781,7 @@ type ProcessCase struct {
 	Query     string              // entry to fetch
 	Vars      []map[string]string // variable sets, applied one after the other on the same service
 	ViaAny    bool                // query resolves through the rt/any fallback (entry absent in exact dir)
+	SubDir    string              // non-empty: all entries live in this subdirectory of the role directory (entry keys "<SubDir>/<name>"); includes by short name mean the siblings there, decoys of the same names sit one level up
 }
 
 func renderSrc(ps []Piece) string {
@@ -838,14 +839,24 @@ func runProcess(c ProcessCase) (res vh.Result) {
 	kv := kvset{}
 	base := c.Component + "/" + c.RunType + "/" + c.Role + "/"
 	anyBase := c.Component + "/" + c.RunType + "/any/"
+	prefix := ""
+	if c.SubDir != "" {
+		prefix = c.SubDir + "/"
+	}
 	for n, ps := range c.Entries {
+		if c.SubDir != "" {
+			kv[base+n] = "DECOY-one-level-up-" + n
+		}
 		if c.ViaAny && n == c.Query {
 			continue
 		}
-		kv[base+n] = renderSrc(ps)
+		kv[base+prefix+n] = renderSrc(ps)
 	}
 	for n, ps := range c.Other {
-		kv[anyBase+n] = renderSrc(ps)
+		if c.SubDir != "" {
+			kv[anyBase+n] = "DECOY-one-level-up-any-" + n
+		}
+		kv[anyBase+prefix+n] = renderSrc(ps)
 	}
 	be, err := openBackend(c.Backend, kv)
 	if err != nil {
@@ -854,7 +865,7 @@ func runProcess(c ProcessCase) (res vh.Result) {
 	}
 	defer be.close()
 	rt := apricotpb.RunType(apricotpb.RunType_value[c.RunType])
-	q := &componentcfg.Query{Component: c.Component, RunType: rt, RoleName: c.Role, EntryKey: c.Query}
+	q := &componentcfg.Query{Component: c.Component, RunType: rt, RoleName: c.Role, EntryKey: prefix + c.Query}
 	resolved, err := be.svc.ResolveComponentQuery(q)
 	src := c.Entries
 	if c.ViaAny {
@@ -975,6 +986,7 @@ func genProcess(t *rapid.T) ProcessCase {
 		Entries:   map[string][]Piece{},
 		Other:     map[string][]Piece{},
 		ViaAny:    rapid.IntRange(0, 3).Draw(t, "viaany") == 0,
+		SubDir:    rapid.SampledFrom([]string{"", "", "tpc", "sub/dir"}).Draw(t, "subdir"),
 	}
 	names := []string{"e0", "e1", "e2", "missing"}
 	varNames := []string{"v_a", "v_b", "v_c", "v_d"}
